@@ -27,7 +27,7 @@ structure InvG (sl : Key → Nat) (stale : Key × Waiter → Prop) (s : State) :
   slots : (slotsOf s).Nodup
   cover : ∀ c b, (s.conns c).blocked = some b → ∀ k, k ∈ b.keys → (k, c) ∈ slotsOf s
   keysNe : ∀ c b, (s.conns c).blocked = some b → b.keys ≠ []
-  alive : ∀ c, (s.conns c).blocked ≠ none → c ≠ 0 ∧ (s.conns c).gone = false ∧ (s.conns c).peerClosed = false
+  alive : ∀ c, (s.conns c).blocked ≠ none → c ≠ 0 ∧ (s.conns c).gone = false
   wakeConns : (s.wakeQ.map (·.conn)).Nodup
   counts : ∀ k, cntW s k + sl k ≤ cntL s k ∧ (0 < cntR s k → cntL s k = cntW s k + sl k)
   lost : s.lost = []
@@ -42,16 +42,27 @@ def noStale : Key × Waiter → Prop := fun _ => False
 /-- The invariant between micro-steps. -/
 abbrev InvF (s : State) : Prop := InvG noSlack noStale s
 
-/-- The invariant between commands. -/
+/-- The server has looked at the socket of every blocked client whose peer has gone: who is blocked has a peer. -/
+def Calm (s : State) : Prop := ∀ c, (s.conns c).blocked ≠ none → (s.conns c).peerClosed = false
+
+/-- The invariant between commands of a batch (a batch runs only when the state is calm). -/
 structure InvB (s : State) : Prop where
   inv : InvF s
   quiet : s.wakeQ = []
+  calm : Calm s
+
+/-- The invariant between events: a blocked client may have hung up without the server having looked yet. -/
+structure InvR (s : State) : Prop where
+  inv : InvF s
+  quiet : s.wakeQ = []
+
+theorem InvB.toR {s : State} (h : InvB s) : InvR s := ⟨h.inv, h.quiet⟩
 
 theorem slackAt_zero (k : Key) : slackAt k 0 = noSlack := by
   funext k'; simp [slackAt, noSlack]
 
 theorem InvB_init : InvB init := by
-  refine ⟨⟨?_, ?_, ?_, ?_, ?_, ?_, ?_, ?_, rfl⟩, rfl⟩
+  refine ⟨⟨?_, ?_, ?_, ?_, ?_, ?_, ?_, ?_, rfl⟩, rfl, fun c h => absurd rfl h⟩
   · intro k w h; cases h
   · intro w h; cases h
   · exact List.nodup_nil
@@ -123,7 +134,7 @@ theorem InvG.congr {sl sl' st} {s t : State} (hI : InvG sl st s)
     exact hI.keysNe c b hb
   · intro c hb
     rw [(hc c).1] at hb
-    rw [(hc c).2.1, (hc c).2.2]
+    rw [(hc c).2.1]
     exact hI.alive c hb
   · rw [hw]; exact hI.wakeConns
 
@@ -131,7 +142,7 @@ theorem InvG.congr {sl sl' st} {s t : State} (hI : InvG sl st s)
 theorem InvG.congr_life {sl st} {s t : State} (hI : InvG sl st s)
     (hs : t.store = s.store) (hr : t.registry = s.registry) (hw : t.wakeQ = s.wakeQ) (hl : t.lost = s.lost)
     (hc : ∀ c, (t.conns c).blocked = (s.conns c).blocked ∧ ((s.conns c).blocked ≠ none →
-      (t.conns c).gone = (s.conns c).gone ∧ (t.conns c).peerClosed = (s.conns c).peerClosed)) : InvG sl st t := by
+      (t.conns c).gone = (s.conns c).gone)) : InvG sl st t := by
   have hsl : slotsOf t = slotsOf s := by unfold slotsOf; rw [hr, hw]
   refine ⟨?_, ?_, ?_, ?_, ?_, ?_, ?_, ?_, by rw [hl]; exact hI.lost⟩
   · intro k w h
@@ -151,8 +162,7 @@ theorem InvG.congr_life {sl st} {s t : State} (hI : InvG sl st s)
     exact hI.keysNe c b hb
   · intro c hb
     rw [(hc c).1] at hb
-    obtain ⟨h1, h2⟩ := (hc c).2 hb
-    rw [h1, h2]
+    rw [(hc c).2 hb]
     exact hI.alive c hb
   · rw [hw]; exact hI.wakeConns
   · intro k
@@ -205,27 +215,30 @@ theorem dedupL_ne_nil {l : List Key} (h : l ≠ []) : dedupL l ≠ [] := by
 
 /-! ## The wake queue only ever loses its head in `wakeOne` -/
 
-theorem wakeOne_wakeQ (q : Quirks) (s : State) : (wakeOne q s).wakeQ = s.wakeQ.tail := by
+/-- When the request at the head names a client that is blocked on its key (always, under the invariant), `wakeOne`
+    removes exactly that request. -/
+theorem wakeOne_wakeQ (q : Quirks) (s : State)
+    (h : ∀ w rest, s.wakeQ = w :: rest → wakeTargetOk { s with wakeQ := rest } w = true) :
+    (wakeOne q s).wakeQ = s.wakeQ.tail := by
   unfold wakeOne
   split
-  · next h => rw [h]; rfl
-  · next w rest h =>
-    rw [h]
-    simp only [List.tail_cons]
+  · next h' => rw [h']; rfl
+  · next w rest hw =>
+    rw [hw]
+    simp only [List.tail_cons, h w rest hw, Bool.true_eq_false, and_false, if_false]
     split
     · rfl
     · split
       · split <;> simp
       · rfl
 
-theorem iter_wakeOne_quiet (q : Quirks) : ∀ n s, s.wakeQ.length ≤ n → (iter (wakeOne q) n s).wakeQ = [] := by
+theorem wakeOne_nil (q : Quirks) (s : State) (h : s.wakeQ = []) : wakeOne q s = s := by
+  unfold wakeOne; rw [h]
+
+theorem iter_wakeOne_nil (q : Quirks) : ∀ n s, s.wakeQ = [] → iter (wakeOne q) n s = s := by
   intro n
   induction n with
-  | zero => intro s h; simp only [iter]; exact List.length_eq_zero_iff.mp (by omega)
-  | succ n ih =>
-    intro s h
-    simp only [iter]
-    apply ih
-    rw [wakeOne_wakeQ, List.length_tail]; omega
+  | zero => intro s _; rfl
+  | succ n ih => intro s h; simp only [iter]; rw [wakeOne_nil q s h]; exact ih s h
 
 end Ferrous.Blk
